@@ -148,8 +148,26 @@ func linearizable(calls []*call) bool {
 	return rec(0, 0, false)
 }
 
+// released lets the slow actor of tree "slow" finish its OnKill handler
+var released bool
+
 func tree(w *vsys.World, kind string) []string {
 	switch kind {
+	case "panicky":
+		// a parent that panics when it is told of a child's death - also when that happens because the system is stopping
+		w.SpawnRoot(&vsys.Script{Name: "a", Children: []*vsys.Script{{Name: "g"}, {Name: "h"}},
+			OnKilled: func(a *vsys.Act, ctx vivid.ActorContext, m *vivid.OnKilled) {
+				if m.Ref.GetPath() != "/a" {
+					panic("scripted panic in the child-death handler")
+				}
+			}})
+		return []string{"/a", "/a/g", "/a/h"}
+	case "slow":
+		// an actor that takes its time to die: its OnKill handler returns only when the harness says so
+		w.SpawnRoot(&vsys.Script{Name: "a", OnKill: func(a *vsys.Act, ctx vivid.ActorContext, m *vivid.OnKill) {
+			vrt.Block(vrt.KYield, 0, "slow OnKill of /a", func() bool { return released })
+		}})
+		return []string{"/a"}
 	case "one":
 		w.SpawnRoot(&vsys.Script{Name: "a"})
 		return []string{"/a"}
@@ -178,8 +196,14 @@ func scenario(name string, threads []string, treeKind string, fine bool, bounds 
 		Setup:  func(x *vexp.X) { vsys.CoarseSetup() },
 		Body: func(x *vexp.X) {
 			calls = nil
+			released = false
 			ctx, cancel := context.WithCancel(context.Background())
-			w = vsys.NewWorld(x, vivid.WithActorSystemContext(ctx), vivid.WithActorSystemStopTimeout(time.Minute))
+			sysOpts := []vivid.ActorSystemOption{vivid.WithActorSystemContext(ctx), vivid.WithActorSystemStopTimeout(time.Minute)}
+			if treeKind == "panicky" {
+				sysOpts = append(sysOpts, vivid.WithActorSystemSupervisionStrategy(vivid.OneForOneStrategy(vivid.SupervisionStrategyDecisionMakerFN(
+					func(vivid.SupervisionContext) (vivid.SupervisionDecision, string) { return vivid.SupervisionDecisionRestart, "scripted" }))))
+			}
+			w = vsys.NewWorld(x, sysOpts...)
 			w.Quiet = true
 			seq := 0
 			lateN := 0
@@ -234,6 +258,11 @@ func scenario(name string, threads []string, treeKind string, fine bool, bounds 
 				}
 			}
 			vrt.Quiesce()
+			if treeKind == "slow" {
+				// every call has returned although /a has not finished dying (a zero timeout means no waiting); now /a may finish
+				released = true
+				vrt.Quiesce()
+			}
 			var rs []string
 			for _, c := range calls {
 				r := c.res
@@ -344,6 +373,12 @@ func build(tier string) []*vexp.Scenario {
 	maxLen := 3
 	if tier == "thorough" {
 		maxLen = 4
+	}
+	for _, s := range []string{"ST", "SC", "SZ", "SZT", "SCT", "STT"} {
+		out = append(out, scenario(fmt.Sprintf("seq/%s/tree=panicky", s), []string{s}, "panicky", false, []int{0, 1}))
+	}
+	for _, s := range []string{"SZ", "SZZ", "SZS", "SCZ"} {
+		out = append(out, scenario(fmt.Sprintf("seq/%s/tree=slow", s), []string{s}, "slow", false, []int{0, 1}))
 	}
 	for _, tk := range []string{"none", "one", "two"} {
 		for _, s := range seqStrings(maxLen) {
